@@ -316,7 +316,7 @@ def enum_cases(n, kind, lo, hi):
 
 
 def shards(tier):
-    ns, nc, per_s, per_c, side = (8, 5, 25, 50, 5) if tier == "quick" else (8, 6, 500, 450, 9)
+    ns, nc, per_s, per_c, side = (8, 5, 25, 50, 5) if tier == "quick" else (8, 6, 250, 300, 9)
     out = []
     for i in range(ns):
         out.append(("stats#%d" % i, lambda ctx: drive_hypothesis(ctx, body_stats, stats_cases(side), per_s)))
